@@ -234,6 +234,46 @@ def rule_u7(repo, col):
                construct="unify_call_return: dereference through %s before renaming" % tv, function="unify_call_return")
 
 
+def rule_u8(repo, col):
+    """StackBasedEngine.context_min_var returns a lower bound of EVERY variable number in the call context (fresh clause-local variables are numbered below it): each update is
+    min(min_var, <the variable itself>) or min(min_var, min(<all variables of the argument>))"""
+    f = repo.func("problog.engine_stack", "StackBasedEngine.context_min_var")
+    m = f.module
+    loops = [n for n in walk_no_nested(f.node) if isinstance(n, ast.For) and isinstance(n.target, ast.Name)]
+    if len(loops) != 1:
+        raise AnalysisError("context_min_var: loop over the context not found")
+    lp = loops[0]
+    c = lp.target.id
+    rets = [norm(r.value) for r in walk_no_nested(f.node) if isinstance(r, ast.Return) and r.value is not None]
+    if len(rets) != 1:
+        raise AnalysisError("context_min_var: single return expected")
+    acc = rets[0]
+    n = 0
+    for p_ in dtable.extract_block(lp.body, opaque_loops=True):
+        new = p_.env.get(acc)
+        cd = dict((s_, t_) for s_, t_, _ in p_.conds)
+        if new is None:
+            # no update: only for a variable that is None / not negative, or an argument without variables
+            continue
+        n += 1
+        e = ast.parse(new, mode="eval").body
+        ok = False
+        why = new
+        if isinstance(e, ast.Call) and dotted(e.func) == "min" and len(e.args) == 2 and acc in [norm(a) for a in e.args]:
+            other = [a for a in e.args if norm(a) != acc][0]
+            if norm(other) == c:
+                ok = cd.get("is_variable(%s)" % c) is True
+            elif isinstance(other, ast.Call) and dotted(other.func) == "min" and len(other.args) == 1:
+                src = norm(other.args[0])
+                ok = "%s.variables()" % c in src and not any(isinstance(x, ast.Subscript) for x in ast.walk(other.args[0]))
+        col.decide("U8", m, lp, ok, "context_min_var lowers the bound by %s" % ("the variable itself" if norm(e.args[1] if isinstance(e, ast.Call) and len(e.args) == 2 else e) == c else "the minimum over all variables of the argument"),
+                   "context_min_var updates its bound to %s: the bound must cover every variable of the argument (min over all of c.variables()); variables are not numbered in order of "
+                   "occurrence - in p(X, f(Y,X)) the second argument is f(-2,-1) - so a too-high bound lets a fresh clause variable get the number of a caller variable and the call "
+                   "binds it (p(A,B) :- Z = a. called as p(X, f(Y,X)) returns Y = a)" % why, construct="context_min_var: update %s" % ("by the variable" if "variables()" not in new else "by the argument's variables"),
+                   function="StackBasedEngine.context_min_var")
+    col.floor("U8.bound_updates", n, 2)
+
+
 def run(repo, col):
     col.rule("U1", "case coverage of unify_value / unify_value_dc")
     col.rule("U2", "occurs check before binding")
@@ -245,3 +285,5 @@ def run(repo, col):
     rule_u4(repo, col)
     col.rule("U7", "call return: bindings dereferenced before renaming")
     rule_u7(repo, col)
+    col.rule("U8", "fresh variables are numbered below every variable of the call context")
+    rule_u8(repo, col)
